@@ -1,5 +1,106 @@
-import PkVerif.Drv.Common
-/-! `pkmodel-c13`: stub (property not built yet). -/
+import PkVerif.Drv.C01
+import PkVerif.Model.StatGate
+import PkVerif.Gen.C13
+/-! `pkmodel-c13`: C01's storage configurations with every leaf behind a failure schedule.
+
+    cfg <prefix expression>     as C01, plus   faulty <sched> <cfg>   (sched: a word over n/b/a, or -)
+    recv k v | fetch k | stat k | rm k | enum after limit          (stat and rm: exactly one ref)
+    pending                     per `faulty` node, in tree order: schedule entries not yet consumed
+    gatestat cap n fail         gate slots one call of StatBlobsParallelHelper leaves taken
+-/
 namespace Pk.Drv.C13
-def machine : Machine := { σ := Unit, init := (), step := fun s _ => (s, "bad-op") }
+open Pk Pk.RefMap Pk.Stores Pk.Drv.C01
+
+def parseSched (w : String) : Option (List Fault) :=
+  if w == "-" then some []
+  else w.toList.mapM (fun c =>
+    if c == 'n' then some Fault.none else if c == 'b' then some Fault.before
+    else if c == 'a' then some Fault.after else none)
+
+partial def parseCfg : List String → Option (Cfg × List String)
+  | "mem" :: r => some (.mem, r)
+  | "memcache" :: n :: r => n.toNat?.map (fun m => (.memCache m, r))
+  | "faulty" :: s :: r =>
+    match parseSched s, parseCfg r with
+    | some sc, some (c, r1) => some (.faulty sc c, r1)
+    | _, _ => none
+  | "ns" :: r => (parseCfg r).map (fun (c, r') => (.ns c, r'))
+  | "proxy" :: n :: r =>
+    match n.toNat?, parseCfg r with
+    | some m, some (o, r1) => (parseCfg r1).map (fun (c, r2) => (.proxy o c m, r2))
+    | _, _ => none
+  | "overlay" :: r =>
+    match parseCfg r with
+    | some (l, r1) => (parseCfg r1).map (fun (u, r2) => (.overlay l u, r2))
+    | none => none
+  | "shard2" :: r =>
+    match parseCfg r with
+    | some (a, r1) => (parseCfg r1).map (fun (b, r2) => (.shard2 a b, r2))
+    | none => none
+  | "replica2" :: r =>
+    match parseCfg r with
+    | some (a, r1) => (parseCfg r1).map (fun (b, r2) => (.replica2 a b, r2))
+    | none => none
+  | "cond2" :: r =>
+    match parseCfg r with
+    | some (a, r1) => (parseCfg r1).map (fun (b, r2) => (.cond2 a b, r2))
+    | none => none
+  | _ => none
+
+/-- remaining schedule length of every `faulty` node, in tree order -/
+def pendings : (c : Cfg) → (interp route isSchema c).σ → List Nat
+  | .mem, _ => []
+  | .memCache _, _ => []
+  | .ns m, s => pendings m s.2
+  | .proxy o c _, s => pendings o s.1 ++ pendings c s.2.1
+  | .overlay l u, s => pendings l s.1 ++ pendings u s.2.1
+  | .shard2 a b, s => pendings a s.1 ++ pendings b s.2
+  | .replica2 a b, s => pendings a s.1 ++ pendings b s.2
+  | .cond2 t e, s => pendings t s.1 ++ pendings e s.2
+  | .faulty _ c, s => s.2.length :: pendings c s.1
+  | .leaf _, _ => []
+
+/-- the forced schedule of the harness's `gatestat` (harness/props/c13/gate.go): with one slot the
+workers run one after the other, so a failure of worker `f` is visible at iteration `f+1`; otherwise
+the first `min cap n` workers hold their slots, the failing one is released first, and the loop –
+blocked in `gate.Start()` of iteration `cap` if there is one – sees the cancellation there -/
+def gateVisibleAt (cap n : Nat) : Option Nat → Option Nat
+  | none => none
+  | some f => if cap = 1 then (if f + 1 < n then some (f + 1) else none)
+              else if cap < n then some cap else none
+
+def gateStat (cap n : Nat) (fail : Option Nat) : String :=
+  let ends := (List.range n).map (fun i => if some i = fail then StatGate.WorkerEnd.workerErr else .ok)
+  let visible : Nat → Bool := fun i => match gateVisibleAt cap n fail with | some p => decide (p ≤ i) | none => false
+  let lk := StatGate.leaked (StatGate.shapeOf Gen.statHelperEffects) visible ends
+  s!"gate leaked {lk} {if fail.isSome then "err" else "ok"}"
+
+def step (st : St) (ws : List String) : St × String :=
+  match ws with
+  | "cfg" :: rest =>
+    match parseCfg (rest.takeWhile (· != "//")) with
+    | some (c, []) =>
+      if rest.any (· == "//") then (some ⟨c, (interp route isSchema c).init⟩, "ok") else (st, "bad-op")
+    | _ => (st, "bad-op")
+  | ["gatestat", c, n, f] =>
+    match c.toNat?, n.toNat? with
+    | some c, some n =>
+      let fail : Option (Option Nat) := if f == "-" then some none else f.toNat?.map some
+      match fail with
+      | none => (st, "bad-op")
+      | some fail =>
+        let okf := match fail with
+          | none => true
+          | some i => decide (i < n) && (c == 1 || decide (i < min c n))
+        if 1 ≤ c ∧ c ≤ 64 ∧ 1 ≤ n ∧ n ≤ 64 ∧ okf = true then (st, gateStat c n fail) else (st, "bad-op")
+    | _, _ => (st, "bad-op")
+  | ["pending"] =>
+    match st with
+    | some ⟨c, s⟩ => (st, (" ".intercalate ("pending" :: (pendings c s).map toString)))
+    | none => (st, "bad-op")
+  | ["recv", _, _] | ["fetch", _] | ["stat", _] | ["rm", _] | ["enum", _, _] => C01.step st ws
+  | _ => (st, "bad-op")
+
+def machine : Machine := { σ := St, init := none, step := step }
+
 end Pk.Drv.C13
